@@ -295,18 +295,21 @@ def find_group(stmts: Iterable[ast.AST], expected: list, fixed_names: Iterable[s
     order = sorted(range(len(expected)), key=lambda i: -max(leaves(x) for x in alts[i]))
     canon_nodes = [(n, canon(n)) for n in nodes]
     for i in order:
+        best_c = None
         for n, cn in canon_nodes:
-            hit = False
             for b in alts[i]:
                 nm, rn, out = dict(names), dict(rnames), []
                 a = cn.value if isinstance(cn, ast.Expr) else cn
                 if _diff(a, b, nm, rn, out) and not out:
-                    names, rnames = nm, rn
-                    results[i] = (SAME, n, [])
-                    hit = True
+                    # several statements may fit one form under some renaming (`r /= norm(r)` and
+                    # `u /= norm(u)`): prefer the candidate that renames the fewest names
+                    cost = sum(1 for k, v in nm.items() if k != v and k not in names)
+                    if best_c is None or cost < best_c[0]:
+                        best_c = (cost, n, nm, rn)
                     break
-            if hit:
-                break
+        if best_c is not None:
+            _, n, names, rnames = best_c
+            results[i] = (SAME, n, [])
     # second pass: the rest, under the renaming found
     for i in range(len(expected)):
         if results[i] is not None:
